@@ -114,7 +114,7 @@ pub const LABEL_NAMES: [&str; L::_count as usize] = [
     "Channel/U7/U14/ControllerNumber new/get/From/TryFrom",
     "ShortMessageFactory named constructors (control_change, note_on, ...)",
     "ControllerNumber predicates",
-    "Display into stack buffer + FromStr (telemetry)",
+    "Display into stack buffer + FromStr (telemetry); Debug of scanners and messages into a counting sink; Hash of messages",
     "message ==",
 ];
 
